@@ -4,6 +4,7 @@ import (
 	"fmt"
 	"reflect"
 	"sort"
+	"strings"
 	"sync"
 
 	"github.com/twmb/franz-go/pkg/kmsg"
@@ -434,6 +435,16 @@ func BuildRegistry(sc *Schema) *Registry {
 		}
 		top(req, k, "request")
 		top(resp, k, "response")
+		qn, pn := reflect.TypeOf(req).Elem().Name(), reflect.TypeOf(resp).Elem().Name()
+		if strings.TrimSuffix(qn, "Request")+"Response" != pn {
+			r.Mismatches = append(r.Mismatches, fmt.Sprintf("key %d: RequestForKey gives %s but ResponseForKey gives %s", k, qn, pn))
+		}
+		if rk := reflect.TypeOf(req.ResponseKind()).Elem().Name(); rk != pn {
+			r.Mismatches = append(r.Mismatches, fmt.Sprintf("%s.ResponseKind() is a %s, the definitions pair it with %s", qn, rk, pn))
+		}
+		if rk := reflect.TypeOf(resp.RequestKind()).Elem().Name(); rk != qn {
+			r.Mismatches = append(r.Mismatches, fmt.Sprintf("%s.RequestKind() is a %s, the definitions pair it with %s", pn, rk, qn))
+		}
 	}
 	names := append([]string{}, sc.Order...)
 	sort.Strings(names)
